@@ -280,6 +280,8 @@ def make_cf1d(rng, *, ny=None, nx=None, bounds=None, coord_style=None, ident=Non
     lat, lat_edges = _axis(rng, ny, rng.uniform(-40, -10), chance(rng, 0.4), chance(rng, 0.4), quantum)
     lon, lon_edges = _axis(rng, nx, lon_origin(rng), chance(rng, 0.3), chance(rng, 0.4), quantum)
     m.lat, m.lon = lat, lon
+    if coord_dtype == 'int16' and (max(abs(lat).max(), abs(lon).max()) > 32000):
+        coord_dtype = 'int32'         # a very long axis of whole degrees does not fit 16 bits
     # which axes carry stored bounds: both (usual), or only one of them (the other is derived from its centres)
     bounds_axes = 'both'
     if bounds != 'none' and ny >= 2 and nx >= 2 and chance(rng, 0.15):
